@@ -68,10 +68,6 @@ Definition kret_eqb (a b : kret) : bool :=
   | _, _ => false
   end.
 
-(* the jittered expiry lies within 5% of the requested one (and 100 ns for rounding) *)
-Definition jitter_ok (d d' : Z) : bool :=
-  (95 * d - 10000 <=? 100 * d') && (100 * d' <=? 105 * d + 10000).
-
 Definition set_delay (k : Z) (b : kobs) : Z :=
   match last_set k (otrace b) None with Some (_, d') => d' | None => 0 end.
 
@@ -85,13 +81,6 @@ Definition xop_of (o : kop) (b : kobs) : option CW.xop :=
   | KDrain => None
   end.
 
-Definition requested_ok (o : kop) (b : kobs) : bool :=
-  match o with
-  | KSet k _ d | KTake k _ d =>
-    match last_set k (otrace b) None with Some (_, d') => jitter_ok d d' | None => true end
-  | _ => true
-  end.
-
 (* s : composed model; w, c : flat and pointer-level wheel models fed with the observed requests *)
 Fixpoint cache_agrees (s : CW.cachew) (w : state) (c : cstate) (h : list (kop * kobs)) : bool :=
   match h with
@@ -103,7 +92,6 @@ Fixpoint cache_agrees (s : CW.cachew) (w : state) (c : cstate) (h : list (kop * 
     let c1 := fold_left (fun c o => fst (cstep c o)) (otrace b) c in
     pairs_eqb (sort_pairs fw) (sort_pairs (ofired b))
     && pairs_eqb (sort_pairs fc) (sort_pairs (ofired b))
-    && requested_ok o b
     && match xop_of o b with
        | Some x =>
          let '(s1, r, ex) := CW.cw_step s x in
